@@ -21,12 +21,23 @@ CONSUME = [("jws", "deserialize_compact"), ("jws", "validate_compact"), ("jws", 
            ("jwe", "decrypt_json"), ("jwt", "decode")]
 
 
+class _NoTypes:
+    """CHA-only resolution (thorough tier cross-check): every receiver type is unknown"""
+
+    def of(self, m, node):
+        from .typed import UNKNOWN
+        return UNKNOWN
+
+    def coverage(self):
+        return {"modules": 0, "typed_expressions": 0, "mypy_errors": 0}
+
+
 class Engine:
-    def __init__(self, repo: Optional[str] = None):
+    def __init__(self, repo: Optional[str] = None, typed: bool = True):
         t0 = time.time()
         self.repo = os.path.abspath(repo or DEFAULT_REPO)
         self.prog = Program(self.repo)
-        self.types = Types(self.prog)
+        self.types = Types(self.prog) if typed else _NoTypes()
         self.cg = CallGraph(self.prog, self.types)
         self.flow = Flow(self.prog, self.cg)
         self.build_s = time.time() - t0
